@@ -16,7 +16,10 @@ Inductive obs :=
 | OBFwd (flatten : bool) (xs : list nat) (x : list Qc) (r : res)
 | OBVjp (flatten : bool) (xs : list nat) (x g : list Qc) (r : res)
 | OBGrad (flatten : bool) (xs : list nat) (x y : list Qc) (r : res)
-| OJax (xs : list nat) (g : list Qc) (r : res).
+| OJax (xs : list nat) (g : list Qc) (r : res)
+| OQuad (xs : list nat) (x : list Qc) (r : res)            (* grad of <x, Op x> = Op x + Op^T x  (dims = dimsd) *)
+| OFwd2 (xs : list nat) (x : list Qc) (r : res)            (* Op (Op x)                          (dims = dimsd) *)
+| OScaled (s : Qc) (xs : list nat) (x : list Qc) (r : res).  (* a second wrapper, of s*Op, in the same graph *)
 
 (* k_fw: 0 = torch, 1 = jax, 2 = pytensor *)
 Record c19case := { k_id : nat; k_fw : nat; k_tol : Qc; k_n : nat; k_A : list (list Qc);
@@ -69,6 +72,11 @@ Definition model (o : obs) : option ndq :=
   | OJax xs g _ => match jax_rmatvecad QcR n A xs g with
                    | Some v => Some (mk_nd (match xs with [_] => [n] | _ => [n; 1%nat] end) v)
                    | None => None end
+  | OQuad xs x _ => bind (m_fwd (mk_nd xs x)) (fun y1 =>
+                    bind (grad_reshape Qc xs (m_bwd (mk_nd (shp y1) x))) (fun g1 =>
+                    Some (mk_nd xs (vadd QcR (dat y1) (dat g1)))))
+  | OFwd2 xs x _ => bind (m_fwd (mk_nd xs x)) m_fwd
+  | OScaled s xs x _ => bind (m_fwd (mk_nd xs x)) (fun y1 => Some (mk_nd (shp y1) (vscale QcR s (dat y1))))
   end.
 
 (* ---- specification (the property) ---- *)
@@ -83,10 +91,14 @@ Definition spec (o : obs) : option ndq :=
   | OBGrad fl xs x y _ => let B := hd 0%nat xs in
       Some (mk_nd xs (brow bw B m (vsub QcR (brow fw B n x) y)))
   | OJax xs g _ => Some (mk_nd (match xs with [_] => [n] | _ => [n; 1%nat] end) (bw g))
+  | OQuad xs x _ => Some (mk_nd xs (vadd QcR (fw x) (bw x)))
+  | OFwd2 xs x _ => Some (mk_nd (if leqb xs dims then dimsd else [m]) (fw (fw x)))
+  | OScaled s xs x _ => Some (mk_nd (if leqb xs dims then dimsd else [m]) (vscale QcR s (fw x)))
   end.
 Definition impl (o : obs) : res :=
   match o with
-  | OFwd _ _ r | OVjp _ _ _ r | OGrad _ _ _ r | OBFwd _ _ _ r | OBVjp _ _ _ _ r | OBGrad _ _ _ _ r | OJax _ _ r => r
+  | OFwd _ _ r | OVjp _ _ _ r | OGrad _ _ _ r | OBFwd _ _ _ r | OBVjp _ _ _ _ r | OBGrad _ _ _ _ r | OJax _ _ r
+  | OQuad _ _ r | OFwd2 _ _ r | OScaled _ _ _ r => r
   end.
 
 (* codes: 10*i + 1 = observation i differs from the model,
